@@ -3,10 +3,13 @@
 // returned, after the offset was written, after the truncation check) and restarted.
 //
 // parent:  msglog -scenarios file -out trace.ndjson [-jobs N]
-//   scenario = {"rounds":[{"append":700,"kill":{"point":"cb.ret","off":9}}, {"append":0,"kill":{"point":"incb","off":11}},
-//               {"append":50,"at":{"off":20,"n":30}, "clean":true}]}
+//
+//	scenario = {"rounds":[{"append":700,"kill":{"point":"cb.ret","off":9}}, {"append":0,"kill":{"point":"incb","off":11}},
+//	            {"append":50,"at":{"off":20,"n":30}, "clean":true}]}
+//
 // child:   msglog -child -dir D -run R -len L -append N [-at off:n] (-kill point:off | -clean)
-//   writes one JSON event per line to stdout with unbuffered writes.
+//
+//	writes one JSON event per line to stdout with unbuffered writes.
 package main
 
 import (
